@@ -19,9 +19,12 @@ func parserParseExpr(s string) (ast.Expr, error) { return parser.ParseExpr(s) }
 
 func (e *Engine) mapComps(mt *types.Map) (mv, mvs, mh, mhs string) {
 	ks, vs := e.sortOf(mt.Key()), e.sortOf(mt.Elem())
-	mv = e.compName("MV", ks, vs)
+	// per (K,V) including the kind of the Go types (int, interface, pointer,
+	// map ... all have sort Int): maps of different types never alias
+	tag := strings.Trim(ks, "|") + kindTag(mt.Key()) + "$" + strings.Trim(vs, "|") + kindTag(mt.Elem())
+	mv = e.compName("MV", tag, "")
 	mvs = fmt.Sprintf("(Array Int (Array %s %s))", ks, vs)
-	mh = e.compName("MH", ks, "")
+	mh = e.compName("MH", tag, "")
 	mhs = fmt.Sprintf("(Array Int (Array %s Bool))", ks)
 	return
 }
